@@ -194,6 +194,28 @@ func propC10(run *Run, n int) {
 			run.Count("skipped:inexpressible")
 			continue
 		}
+		if r.Chance(1, 6) {
+			// build-up patches (hand-written style): a container is added — into an array that is empty at that
+			// moment, or as an object member — and a LATER op of the same patch edits inside it
+			inner := json.RawMessage(`[1]`)
+			var ops []jop
+			var t *Val
+			switch r.Intn(4) {
+			case 0:
+				t = VObj("rows", VArr(), "z", VNum(1))
+				ops = []jop{{"add", "/rows/0", inner}, {"add", "/rows/0/-", json.RawMessage(`2`)}}
+			case 1:
+				t = VObj("rows", VArr(VArr(VStr("x"))))
+				ops = []jop{{"test", "/rows/0", json.RawMessage(`["x"]`)}, {"remove", "/rows/0", json.RawMessage(`["x"]`)}, {"add", "/rows/0", inner}, {"add", "/rows/0/-", json.RawMessage(`2`)}}
+			case 2:
+				t = VArr()
+				ops = []jop{{"add", "/0", inner}, {"add", "/0/1", json.RawMessage(`2`)}, {"add", "/0/-", json.RawMessage(`3`)}}
+			default:
+				t = VObj("k", VNum(1))
+				ops = []jop{{"add", "/o", json.RawMessage(`{"a":[]}`)}, {"add", "/o/a/0", json.RawMessage(`[5]`)}, {"add", "/o/a/0/-", json.RawMessage(`6`)}}
+			}
+			addC10Case(run, "build-up", opsText([][]jop{ops}), t, t, t)
+		}
 		// own output first
 		addC10Case(run, "own", opsText(groups), a, a, b)
 		for k := 0; k < 3; k++ {
@@ -530,6 +552,31 @@ func addC10Case(run *Run, kind, text string, t, a, b *Val) {
 	if strings.HasPrefix(rd, "ok ") {
 		c.Probes = append(c.Probes, Probe{Kind: "corr", Rel: "Patch = patchM (diff read from JSON Patch)", Line: fmt.Sprintf("patch %s %s", tw, rd[3:]), Want: po})
 	}
+	if strings.HasPrefix(rd, "ok ") {
+		// the Diff VALUE that ReadPatchString returned, applied twice to fresh copies of the target: applying
+		// it must not change it (the property is about every application, not only the first)
+		v, _ := safely(func() string {
+			d, err := jd.ReadPatchString(text)
+			if err != nil {
+				return "ok"
+			}
+			r1, e1 := mustNode(tw).Patch(d)
+			o1 := encOutcomeNode(r1, e1)
+			r2, e2 := mustNode(tw).Patch(d)
+			o2 := encOutcomeNode(r2, e2)
+			if o1 != po {
+				return "fail the diff read from the patch applies differently (" + o1 + ") than a fresh copy of it (" + po + ")"
+			}
+			if o2 != o1 {
+				return "fail the same diff value applied a second time to a fresh copy of the target gives " + o2 + ", the first time " + o1
+			}
+			return "ok"
+		})
+		if v == "panic" {
+			v = "fail panic"
+		}
+		c.Probes = append(c.Probes, Probe{Kind: "direct", Rel: "C10 a diff read from a JSON Patch applies the same way every time", Want: v})
+	}
 	if kind == "own" {
 		v := "ok"
 		if !strings.HasPrefix(po, "ok ") {
@@ -683,6 +730,37 @@ func propC12(run *Run, n int) {
 			t, p = d.ChainPair(r, false)
 			if r.Chance(1, 2) {
 				t = cfg.Doc(r, 0)
+			}
+		}
+		if r.Chance(1, 6) {
+			// the target is a document an earlier SET / MULTISET Patch returned: its edited arrays are typed
+			// jsonSet / jsonMultiset nodes; the patch puts objects where the target holds such arrays
+			o := OptSetO
+			if r.Chance(1, 2) {
+				o = OptMset
+			}
+			t0 := VObj("name", VStr("svc"), "tags", cfg.Arr(r, 1), "spec", VObj("tags", cfg.Arr(r, 1)))
+			t1 := t0.Clone()
+			t1.O["tags"] = cfg.Mutate(r, t0.O["tags"], 2)
+			t1.O["spec"].O["tags"] = cfg.Mutate(r, t0.O["spec"].O["tags"], 2)
+			_, outcome, _ := implDiffPatch(o, t0.Wire(), t1.Wire())
+			if strings.HasPrefix(outcome, "ok ") {
+				if pv, err := ParseWire(outcome[3:]); err == nil && pv.K == KObj {
+					t = pv
+					inner := VObj("owner", VStr("x"))
+					switch r.Intn(3) {
+					case 0:
+						inner = VObj("owner", VNull())
+					case 1:
+						inner = VObj("a", VObj("b", VNum(1)))
+					}
+					if r.Chance(1, 2) {
+						p = VObj("tags", inner, "name", VStr("svc2"))
+					} else {
+						p = VObj("spec", VObj("tags", inner))
+					}
+					run.Count("target:typed-from-set-patch")
+				}
 			}
 		}
 		if p.K == KVoid {
